@@ -10,7 +10,7 @@ mkdir -p /var/tmp/mutrun; cp /verif/known_findings.json /verif/properties.jsonl 
 cd /verif/harness && cargo build 2>&1 | grep -E "^error" -A 8
 for c in "$@"; do
   case "$c" in C05|C13|C14) cargo build --offline --manifest-path /repo/watchtower-plugin/Cargo.toml --features verif --bin watchtower-client --target-dir /verif/harness/target/repo-bins 2>&1 | grep -E "^error" -A 8;; esac
-  if [ "$c" = "C01" ] || [ "$c" = "C03" ]; then cargo build --offline --manifest-path /repo/teos/Cargo.toml --features verif --bin teosd --target-dir /verif/harness/target/repo-bins 2>&1 | grep -E "^error" -A 8; fi
+  if [ "$c" = "C01" ] || [ "$c" = "C03" ] || [ "$c" = "C12" ]; then cargo build --offline --manifest-path /repo/teos/Cargo.toml --features verif --bin teosd --target-dir /verif/harness/target/repo-bins 2>&1 | grep -E "^error" -A 8; fi
   out=$(VERIF_TEOSD_BIN=/verif/harness/target/repo-bins/debug/teosd VERIF_CLIENT_BIN=/verif/harness/target/repo-bins/debug/watchtower-client VERIF_DIR=/var/tmp/mutrun timeout 1200 ./target/debug/verif $c --tier $tier 2>&1)
   code=$?
   echo "== $c exit=$code"
